@@ -169,6 +169,8 @@ class BaseColumnType(object):
     except Exception as e:
       # If conversion failed, return a string to serve as alttext.
       try:
+        if isinstance(value_to_convert, (set, frozenset)):
+          return objtypes.safe_repr(value_to_convert)     # fixed element order, see safe_repr
         return str(value_to_convert)
       except Exception:
         # If converting to string failed, we should still produce something.
